@@ -90,9 +90,23 @@ def flip(hexs, pos=5):
     return hexs[:pos] + ("0" if c != "0" else "1") + hexs[pos + 1:]
 
 
+def mixcase(h):
+    """upper-case the first letter only (the result is neither all-lower nor all-upper when it has >= 2 letters)"""
+    for i, c in enumerate(h):
+        if c.isalpha():
+            rest = h[i + 1:]
+            if not any(x.isalpha() for x in rest):
+                return h[:i] + c.upper() + rest        # single letter: all-upper; callers get an upper spelling then
+            return h[:i] + c.upper() + rest
+    return h
+
+
 KEY_SPELLINGS = {
     "canon": lambda k: k,
     "upper": lambda k: k.upper(),
+    "mixed": lambda k: mixcase(k),                      # one letter in upper case: a spelling str.isupper()/islower() tests miss
+    "nl_for_last": lambda k: k[:-1] + "\n",             # right length, line feed as last character (a `$`-anchored regex accepts it)
+    "bytes": lambda k: k.encode(),                      # the same characters as a byte string
     "lead_ws": lambda k: " " + k,
     "trail_nl": lambda k: k + "\n",
     "inner_ws": lambda k: k[:2] + " " + k[2:],
@@ -115,6 +129,8 @@ def value_states(i, payload, other_payload, j):
         "raw+gpgfields": {"signature": r["signature"], "other_headers": "04ff"},
         "gpg": g,
         "gpg+see_also": gpg_sig(i, payload, see_also=True),
+        "gpg+see_also_unrelated": dict(gpg_sig(i, payload), see_also="ab" * 20),        # the hint names a key that appears nowhere in the hashed headers
+        "gpg_hdr_time_only": gpg_sig(i, payload, hdr=bytes.fromhex("040016080006050260000000")),   # a conforming signer may hash the creation time only
         "gpg_hdr1": gpg_sig(i, payload, hdr=b"\x04"),
         "raw_other_payload": raw_sig(i, other_payload),
         "gpg_other_payload": gpg_sig(i, other_payload),
@@ -126,6 +142,16 @@ def value_states(i, payload, other_payload, j):
         "sig127": {"signature": r["signature"][:-1]},
         "sig129": {"signature": r["signature"] + "0"},
         "sig_upper": {"signature": r["signature"].upper()},
+        "sig_mixed": {"signature": mixcase(r["signature"])},
+        "sig_nl_for_last": {"signature": r["signature"][:-1] + "\n"},
+        "sig_bytes": {"signature": r["signature"].encode()},
+        "gpg_sig_nl_for_last": dict(g, signature=g["signature"][:-1] + "\n"),
+        "gpg_sig_mixed": dict(g, signature=mixcase(g["signature"])),
+        "gpg_hdr_mixed": dict(g, other_headers=mixcase(g["other_headers"])),
+        "gpg_hdr_nl_for_last": dict(g, other_headers=g["other_headers"][:-1] + "\n"),
+        "gpg_see_also_nl": dict(g, see_also="f075dd2f6f4cb3bd76134bbb81b6ca16ef9cd589\n"),
+        "gpg_see_also_mixed": dict(g, see_also="F075dd2f6f4cb3bd76134bbb81b6ca16ef9cd589"),
+        "sig+see_also_only": {"signature": r["signature"], "see_also": "f075dd2f6f4cb3bd76134bbb81b6ca16ef9cd589"},
         "gpg_hdr_empty": dict(g, other_headers=""),
         "gpg_hdr_odd": dict(g, other_headers=g["other_headers"][:-1]),
         "gpg_hdr_upper": dict(g, other_headers=g["other_headers"].upper()),
@@ -143,4 +169,24 @@ PAYLOADS = [
     42,
     {"type": "root", "x": 1e16, "nan": float("nan")},
     {},
+]
+
+
+# pairs of different JSON values whose canonical bytes differ, but which a lossy / normalising / type-coercing serializer conflates
+CONFUSABLE_PAYLOADS = [
+    ("stable?", "stable\ud83d"),                 # encode(errors="replace")
+    ("stable\ufffd", "stable\ud83d"),
+    ("x\ud800", "x\udfff"),                      # two different lone surrogates
+    ("caf\u00e9", "cafe\u0301"),                 # NFC / NFD
+    ("\u212b", "\u00c5"),                        # Angstrom sign / A with ring (NFC-equal)
+    ("\ufb01", "fi"),                            # NFKC
+    ("\\u00e9", "\u00e9"),                       # the six characters backslash-u-0-0-e-9 / the character
+    ("a", "a\u0000"),
+    ("a", "a "),
+    ("A", "a"),
+    ("1", 1), (1, 1.0), (1, True), (0, False), (0, -0.0), (None, "null"), (None, 0), ([], {}), ("", None),
+    (10 ** 16, 1e16), (2 ** 53 + 1, float(2 ** 53)), (0.1 + 0.2, 0.3),
+    ({"a": 1, "b": 2}, {"a": 1, "b": 2, "c": None}),
+    ([1, 2], [2, 1]), ([1, [2]], [[1], 2]),
+    ("\u2028", "\n"), ("\x7f", "\u007f "),
 ]
